@@ -25,3 +25,15 @@ package bs_java
 //@ ensures IsKind(BodyBlock(context), "BlockContext") ==> result.SwitchSize == old(bsInfo.SwitchSize) + NCond(BodyBlock(context), "switch", Count(BodyBlock(context), "blockStatement"))
 //@ ensures !IsKind(BodyBlock(context), "BlockContext") ==> result == old(bsInfo)
 //@ loop 1 invariant bsInfo.IfSize == old(bsInfo.IfSize) + NCond(BodyBlock(context), "if", #i) && bsInfo.SwitchSize == old(bsInfo.SwitchSize) + NCond(BodyBlock(context), "switch", #i)
+
+// ---- C10: what the pass records for a method: exactly one entry, with its own name, return type, body text, one
+// parameter entry per formal parameter (the long-parameter-list rule counts them) and the if / switch counts of its body
+//@ spec BsParams(m Node) Node := Kid(Child(m, "formalParameters"), 1)
+//@ spec BsNParams(m Node) int := IsKind(BsParams(m), "FormalParameterListContext") ? Count(BsParams(m), "formalParameter") : 0
+//@ method BadSmellListener.EnterMethodDeclaration
+//@ modifies methods, localVars
+//@ ensures len(methods) == old(len(methods)) + 1 && Extends(methods, old(methods), 1)
+//@ ensures methods[len(methods) - 1].CodeFunction.Name == GetText(Child(ctx, "identifier")) && methods[len(methods) - 1].CodeFunction.ReturnType == GetText(Child(ctx, "typeTypeOrVoid")) && methods[len(methods) - 1].FunctionBody == GetText(Child(ctx, "methodBody"))
+//@ ensures len(methods[len(methods) - 1].CodeFunction.Parameters) == BsNParams(ctx)
+//@ ensures IsKind(BodyBlock(ctx), "BlockContext") ==> methods[len(methods) - 1].FunctionBS.IfSize == NCond(BodyBlock(ctx), "if", Count(BodyBlock(ctx), "blockStatement")) && methods[len(methods) - 1].FunctionBS.SwitchSize == NCond(BodyBlock(ctx), "switch", Count(BodyBlock(ctx), "blockStatement"))
+//@ loop 1 invariant localVars != nil && len(methodParams) == #i
